@@ -77,9 +77,9 @@ package crosscompile
 //@ effects os: RemoveAll, MkdirAll, Rename
 //@ effects os/exec:
 //@ effects syscall:
-//@ at_call extractTarGz requires into-scratch: dest == tempDir
-//@ at_call extractTarXz requires into-scratch: dest == tempDir
-//@ at_call extractZip requires into-scratch: dest == tempDir
+//@ at_call crosscompile.extractTarGz requires into-scratch: dest == tempDir
+//@ at_call crosscompile.extractTarXz requires into-scratch: dest == tempDir
+//@ at_call crosscompile.extractZip requires into-scratch: dest == tempDir
 //@ at_call os.Rename requires publishes-scratch-onto-destination: oldpath == tempDir && newpath == destDir
 //@ at_call os.RemoveAll requires removes-scratch-only: path == tempDir
 //@ at_call os.MkdirAll requires creates-scratch-only: path == tempDir
@@ -99,7 +99,7 @@ package crosscompile
 //@ effects syscall: Flock
 //@ at_call syscall.Flock requires exclusive-lock: how == 2
 //@ at_call os.OpenFile requires opens-the-lock-file-only: name == lockPath
-//@ at_call downloadAndExtractArchive requires into-scratch: destDir == tempExtractDir
+//@ at_call crosscompile.downloadAndExtractArchive requires into-scratch: destDir == tempExtractDir
 //@ at_call os.Rename requires publishes-onto-destination: newpath == dstDir
 //@ at_call os.RemoveAll requires removes-scratch-only: path == tempExtractDir
 //@ modifies everything
